@@ -185,6 +185,12 @@ theorem covered_types : Facts.lockTypes.map (·.name) =
      "esdtNFTAddQuantity", "esdtNFTAddUri", "esdtNFTBurn", "esdtNFTCreate", "esdtNFTMultiTransfer", "esdtNFTTransfer",
      "esdtNFTupdate", "esdtTransfer", "saveKeyValueStorage", "saveUserName"] := by decide
 
+/-- executions of one function object overlap under its READ lock, and each builds its storage keys by appending the
+    token identifier to the object's key-prefix slice: that is free of shared writes exactly when no prefix slice has spare
+    capacity (`C13.append_full_writes_nothing_shared` is the slice-level statement). Regenerated on every run from the real
+    function objects through the `verif` hook (per-object and package-level prefixes, len and cap). -/
+theorem no_shared_key_buffer : Facts.prefixesWithSpareCapacity = [] := by decide
+
 /-! sensitivity of `D` (these are the shapes the discipline must reject) -/
 
 /-- check-then-act in two sections (non-atomic insert) is rejected -/
